@@ -98,6 +98,10 @@ def cli_scenarios():
         # two silently damaged synced blocks (d1/anchor and the third block of d3/p) in stripe 3, which also receives a new block of d2/B
         ("sync-two-silent-errors", Config(levels=2, ndisks=3), [("write", "d3", "anchor", 700, 0), ("write", "d3", "p", 3000, 0)] + base + adds,
          ("sync",), [("dmg", "d3", "p", 2), ("dmg", "d1", "anchor", 0)]),
+        # a hash migration is pending on stripes that the sync touches: three readers, per-stripe bookkeeping of new hashes
+        ("sync-rehash-pending", Config(levels=1, ndisks=3),
+         [("write", "d3", "anchor", 700, 0), ("write", "d3", "p", 6000, 0), ("write", "d2", "q", 6000, 0)] + base + [("cmd", "rehash")] + adds,
+         ("sync",), None),
         ("sync-file-changed", Config(levels=1, ndisks=2), base + adds, ("sync", "--test-run", "touch -d 2001-01-01 {root}/d1/N"), None),
         ("sync-full", Config(levels=3, ndisks=2), base + adds + [("cmd", "sync")], ("sync", "-F"), None),
         ("scrub", Config(levels=2, ndisks=2), base + adds + [("cmd", "sync")], ("scrub", "-p", "full"), ("dmg", "d2", "B")),
